@@ -141,7 +141,7 @@ def run_lines(cmd, lines, timeout=60.0, limit_mem=True, env=None):
         i += len(got)
         if len(got) < len(chunk):
             if status == 'crash':
-                CRASH_LOG[chunk[len(got)]] = p.stderr.decode(errors='replace')[-3000:]
+                CRASH_LOG[chunk[len(got)]] = 'exit status %s; stderr: %s' % (p.returncode, p.stderr.decode(errors='replace')[-3000:])
             outs.append(status)
             i += 1
     return outs
@@ -184,11 +184,28 @@ COV_LINES = []          # sample of the input lines sent to the implementation b
 COV_MAX = 4000
 
 
+TIMING_TOKENS = ('HANG', 'hang', 'NODECODE', 'nopark', 'stuck', 'stophang', 'stopHANG', 'closeHANG')
+RETRIED = []            # (line, first verdict, verdict of the isolated re-run)
+
+
+def _timing(out):
+    return out == 'hang' or any(t in out.split(' ') for t in TIMING_TOKENS)
+
+
 def impl_run(harness, lines, timeout=20.0, env=None, limit_mem=True):
     if len(COV_LINES) < COV_MAX:
         step = max(1, len(lines) // 400)
         COV_LINES.extend((l, timeout) for l in lines[::step][:COV_MAX - len(COV_LINES)])
-    return run_sharded([harness, 'run'], lines, timeout=timeout, env=env, limit_mem=limit_mem)
+    outs = run_sharded([harness, 'run'], lines, timeout=timeout, env=env, limit_mem=limit_mem)
+    # an expired watchdog (the harness's own or the per-shard timeout) is confirmed on an isolated re-run
+    # with six times the watchdogs before it is believed: a loaded machine must not look like a hang
+    for i, o in enumerate(outs):
+        if _timing(o) and len(RETRIED) < 40:
+            e2 = dict(env if env is not None else os.environ, GFH_TSCALE='6')
+            o2 = run_lines([harness, 'run'], [lines[i]], timeout=max(60.0, timeout * 6), env=e2, limit_mem=limit_mem)[0]
+            RETRIED.append((lines[i][:200], o[:80], o2[:80]))
+            outs[i] = o2
+    return outs
 
 
 def anchor_files(pid):
@@ -449,7 +466,7 @@ class Check:
             evaluations=self.evals, distinct_nontrivial=len(self.nontrivial), rule=prop.RULE,
             samples=self.samples[:6], distribution=self.dist, exhaustive_sweeps=self.exhaustive,
             exhaustive=False, known_findings_reconfirmed={k: len(v) for k, v in self.known.items()},
-            notes=self.notes)
+            notes=self.notes + (['watchdog verdicts re-run in isolation with 6x watchdogs: %s' % RETRIED[:10]] if RETRIED else []))
         if extra_cov:
             cov.update(extra_cov)
         if self.tier == 'thorough' or os.environ.get('VERIF_COVER'):
